@@ -392,6 +392,8 @@ def resolveTag (env : Env) (text ty name : Str) : Option Str :=
   else if t == "property".toList then lookupProp env name
   else some text
 
+/-- every placeholder replaced by what its resolver returns, all at once (the reading of "placeholders are substituted";
+`renderSeq` is what the code does, Proofs/C17Seq.lean relates the two) -/
 def render (env : Env) : List Seg → Option Str
   | [] => some []
   | .lit l :: r => (render env r).map (l ++ ·)
@@ -399,6 +401,34 @@ def render (env : Env) : List Seg → Option Str
     match resolveTag env text ty name with
     | none => none
     | some v => (render env r).map (v ++ ·)
+
+/-- is `pat` a prefix of the text? -/
+def isPrefix : Str → Str → Bool
+  | [], _ => true
+  | _ :: _, [] => false
+  | p :: ps, c :: cs => p == c && isPrefix ps cs
+
+/-- `strings.ReplaceAll(s, pat, rep)` for a non-empty `pat`, left to right, non-overlapping; `skip`: characters of
+the occurrence just matched that are still to be dropped -/
+def replaceAux (pat rep : Str) : Str → Nat → Str
+  | [], _ => []
+  | _ :: cs, skip + 1 => replaceAux pat rep cs skip
+  | c :: cs, 0 =>
+    if isPrefix pat (c :: cs) then rep ++ replaceAux pat rep cs (pat.length - 1)
+    else c :: replaceAux pat rep cs 0
+
+def replaceAll (s pat rep : Str) : Str := if pat.isEmpty then s else replaceAux pat rep s 0
+
+/-- the loop of `ResolveCustomTags`: the tags in the order `findTags` found them; each is resolved and then EVERY
+occurrence of its text in the string built so far is replaced (`res = strings.ReplaceAll(res, t.string, resolved)`).
+A resolved value that contains the text of a LATER tag of the same string is therefore substituted again. -/
+def renderSeq (env : Env) : Str → List Seg → Option Str
+  | res, [] => some res
+  | res, .lit _ :: r => renderSeq env res r
+  | res, .tag text ty name :: r =>
+    match resolveTag env text ty name with
+    | none => none
+    | some v => renderSeq env (replaceAll res text v) r
 
 inductive Resolved
   | plain                         -- no placeholder in the string
@@ -412,7 +442,7 @@ def resolve (env : Env) (s : Str) : Resolved :=
   | none => .weird
   | some segs =>
     if !hasTag segs then .plain
-    else match render env segs with
+    else match renderSeq env s segs with
       | none => .failed
       | some t => .text t (loneTag segs)
 
